@@ -5,6 +5,7 @@ package republisher
 import (
 	"context"
 	"errors"
+	"fmt"
 	"time"
 
 	"github.com/ipfs/boxo/ipns"
@@ -108,30 +109,36 @@ func (rp *Republisher) republishEntries(ctx context.Context) error {
 	// because:
 	// 1. There's no way to get keys from the keystore by ID.
 	// 2. We don't actually have access to the IPNS publisher.
-	err := rp.republishEntry(ctx, rp.self)
-	if err != nil {
-		return err
+
+	// A key that cannot be republished (unreadable record, keystore or
+	// routing error) must not keep the remaining keys from being
+	// republished: attempt every key and report all failures together.
+	var errs []error
+	if err := rp.republishEntry(ctx, rp.self); err != nil {
+		errs = append(errs, fmt.Errorf("self: %w", err))
 	}
 
 	if rp.ks != nil {
 		keyNames, err := rp.ks.List()
 		if err != nil {
-			return err
+			return errors.Join(append(errs, err)...)
 		}
 		for _, name := range keyNames {
+			if err := ctx.Err(); err != nil {
+				return errors.Join(append(errs, err)...)
+			}
 			priv, err := rp.ks.Get(name)
 			if err != nil {
-				return err
+				errs = append(errs, fmt.Errorf("key %q: %w", name, err))
+				continue
 			}
-			err = rp.republishEntry(ctx, priv)
-			if err != nil {
-				return err
+			if err := rp.republishEntry(ctx, priv); err != nil {
+				errs = append(errs, fmt.Errorf("key %q: %w", name, err))
 			}
-
 		}
 	}
 
-	return nil
+	return errors.Join(errs...)
 }
 
 func (rp *Republisher) republishEntry(ctx context.Context, priv ic.PrivKey) error {
